@@ -54,6 +54,44 @@ def run_operator(rec):
 NAMES = ["dyn_loss", "initial_condition", "norm_loss", "boundary_loss", "observations"]
 
 
+_EQ_CLASSES = {}
+
+
+def _user_equation_class(lkind):
+    """module-level (cached) dynamic-loss classes whose residual function is an instance field"""
+    if lkind in _EQ_CLASSES:
+        return _EQ_CLASSES[lkind]
+    import equinox as eqx
+    import jax.numpy as jnp
+    from typing import Callable
+    from jinns.loss import ODE, PDEStatio, PDENonStatio
+
+    if lkind == "ode":
+        class UserEquationODE(ODE):
+            resid: Callable = eqx.field(static=True, kw_only=True, default=None)
+
+            def equation(self, t, u, p):
+                t = jnp.atleast_1d(t)
+                return self.resid(t, u(t, p), p)
+        cls = UserEquationODE
+    elif lkind == "statio":
+        class UserEquationStatio(PDEStatio):
+            resid: Callable = eqx.field(static=True, kw_only=True, default=None)
+
+            def equation(self, x, u, p):
+                return self.resid(x, u(x, p), p)
+        cls = UserEquationStatio
+    else:
+        class UserEquationNonStatio(PDENonStatio):
+            resid: Callable = eqx.field(static=True, kw_only=True, default=None)
+
+            def equation(self, t, x, u, p):
+                return self.resid(jnp.concatenate([t, x]), u(t, x, p), p)
+        cls = UserEquationNonStatio
+    _EQ_CLASSES[lkind] = cls
+    return cls
+
+
 def build_loss(rec, derivative_keys=None):
     """loss record -> (jinns loss, params, batch) built through the public constructors"""
     import warnings
@@ -123,21 +161,11 @@ def build_loss(rec, derivative_keys=None):
                     return resid_grid(jnp.concatenate([t, x], axis=1), u(t, x, p), p)
         dyn = Eq(Tmax=float(rec.get("Tmax", 1)))
     elif R:
-        if lkind == "ode":
-            class Eq(ODE):
-                def equation(self, t, u, p):
-                    t = jnp.atleast_1d(t)
-                    return resid(t, u(t, p), p)
-        elif lkind == "statio":
-            class Eq(PDEStatio):
-                def equation(self, x, u, p):
-                    return resid(x, u(x, p), p)
-        else:
-            class Eq(PDENonStatio):
-                def equation(self, t, x, u, p):
-                    return resid(jnp.concatenate([t, x]), u(t, x, p), p)
+        # ONE equation class per loss kind for the whole driver process (as a user would write it), the residual being instance data:
+        # successive records are successive INSTANCES of the same class with different residuals and heterogeneity maps
+        Eq = _user_equation_class(lkind)
         # Tmax is an attribute of the user's dynamic loss that ONLY the user's equation may use (ours does not): any value must give the same loss
-        dyn = Eq(Tmax=float(rec.get("Tmax", 1)), eq_params_heterogeneity=het)
+        dyn = Eq(Tmax=float(rec.get("Tmax", 1)), eq_params_heterogeneity=het, resid=resid)
 
     def wt(v):
         return float(v[0]) if len(v) == 1 else jnp.array([float(a) for a in v])
